@@ -577,7 +577,7 @@ impl Engine for C07 {
         "C07"
     }
     fn rule(&self) -> String {
-        "documents = all heading-level sequences over levels 1-6 up to the bound (ATX and setext, with and without body paragraphs) + the block-grammar forests (lists nested and mixed, multi-block items, quotes containing them) + ordered lists around 9/10 and 99/100 items; each is formatted by the real code; the independent outline extractor (R2, on the R1 trees, with the statement's input-side equivalences) must give the same structure for input and output: headings in order with their text, every block in the same container path (quote / bullet item / ordered item) under the same nearest preceding heading, the same number of items per list, the same list kinds; the document-level heading levels of the output must be well-nested and equal to the input's when those were well-nested. non-trivial = formatting changed the text".into()
+        "documents = all heading-level sequences over levels 1-6 up to the bound (ATX and setext, with and without body paragraphs) + the block-grammar forests (lists nested and mixed, multi-block items, quotes containing them) + ordered lists around 9/10 and 99/100 items; each is formatted by the real code; the independent outline extractor (R2, on the R1 trees, with the statement's input-side equivalences) must give the same structure for input and output: headings in order with their text, every block in the same container path (quote / bullet item / ordered item) under the same nearest preceding heading, the same number of items per list, the same list kinds; the heading levels of the output - at document level and inside every quote and list item separately - must be well-nested and equal to the input's when those were well-nested. non-trivial = formatting changed the text".into()
     }
     fn bound(&self, tier: Tier) -> String {
         match tier {
@@ -587,7 +587,7 @@ impl Engine for C07 {
     }
     fn assumptions(&self) -> Vec<String> {
         let mut a = doc_assumptions();
-        a.push("heading levels inside quotes and list items are not compared (they restart there); link texts inside headings may be refreshed and are not part of the heading text compared".into());
+        a.push("heading levels inside quotes and list items are compared per container (they restart there) whenever input and output have the same number of containers with headings (a heading that is the first block of an item is its text and not counted); link texts inside headings may be refreshed and are not part of the heading text compared".into());
         a
     }
     fn enumerate(&self, tier: Tier, emit: &mut dyn FnMut(&str)) {
@@ -638,7 +638,23 @@ impl Engine for C07 {
         } else if well_nested(&li) && li != lo {
             push("levels", "changed", format!("input levels {:?} were well-nested but the output has {:?}; {}", li, lo, ctx));
         }
-        let outcome = if failures.is_empty() { if li == lo { "same-levels".to_string() } else { "renested".to_string() } } else { failures.iter().map(|f| f.clause.clone()).collect::<Vec<_>>().join("+") };
+        // the same per quote and per list item (levels restart there)
+        let ci = container_levels(text);
+        let co = container_levels(&out);
+        let mut inner = "";
+        if ci.len() == co.len() {
+            for (x, y) in ci.iter().zip(co.iter()).skip(1) {
+                inner = "+inner";
+                if !well_nested(y) {
+                    push("levels", "inner:not-well-nested", format!("heading levels {:?} inside a quote or list item of the output are not well-nested (input {:?}); {}", y, x, ctx));
+                } else if well_nested(x) && x != y {
+                    push("levels", "inner:changed", format!("levels {:?} inside a quote or list item were well-nested but the output has {:?}; {}", x, y, ctx));
+                }
+            }
+        } else {
+            inner = "+inner-containers-regrouped";
+        }
+        let outcome = if failures.is_empty() { if li == lo { format!("same-levels{}", inner) } else { format!("renested{}", inner) } } else { failures.iter().map(|f| f.clause.clone()).collect::<Vec<_>>().join("+") };
         CaseResult { transitions: 1, nontrivial: out != text, outcome, failures, ..Default::default() }
     }
 }
